@@ -51,6 +51,8 @@ def relax (t : T) (level : Nat) : Option Out :=
     if !allows level d0 then none else
     let cd : Nat × Nat := if d0 = dMajor then (next, dMinor) else (last, d0)
     let b := best t level cd.1 cd.2 nextIsPre (t.n + 1) (next + 1) next
-    some ⟨cd.2 = dPatch, b, last⟩
+    -- "~" for a patch-level step and, since fix 26b0cdcf, whenever the level is patch (a step out of a prerelease is allowed there,
+    -- but "^" would admit later minor versions)
+    some ⟨cd.2 = dPatch || level = lPatch, b, last⟩
 
 end Scalibr.Relax
